@@ -144,7 +144,7 @@ def tensor(*args) -> np.ndarray:
         return result
 
     # Tensor product one matrix `n` times with itself.
-    if len(args) == 2 and isinstance(args[1], int):
+    if len(args) == 2 and isinstance(args[1], (int, np.integer)):
         num_tensor = args[1]
         if num_tensor == 0:
             return np.eye(1, dtype=args[0].dtype)
